@@ -89,6 +89,10 @@ package linking
 //@   ensures[C06] err == nil ==> lbin(lnk2.lid) == lbin(lnk.lid) && lnk2.lid == mklid(protoOf(lnk.lid), hash.hd(hash.halg(hasher), reader.data, io.blen(reader.data)))
 //@   ensures[C06] err == nil ==> len(r) == io.blen(reader.data) && hash.bsrc(r) == reader.data
 //@   ensures[C06] err != nil ==> r == nil
+//   the block returned is memory made for this call (a node built over it is not rewritten by a later load)
+//   (assumed: a zero-value bytes.Buffer keeps its bytes in memory allocated after the Buffer itself)
+//@   after Bytes assume root(result0) > root(&buf)
+//@   ensures[C06,C11] err == nil ==> fresh(r)
 
 // ---- Store == ComputeLink; the link is a function of prototype, value and configuration ----
 
@@ -125,12 +129,14 @@ package linking
 // ---- C17/C05: a link system keys its storage by the binary form of the link ----
 //@ func (*LinkSystem).SetReadStorage$1(lctx, lnk) (r, err)
 //@   requires lnk != nil && store != nil
+//@   assigns[C20] foreign
 //@   before GetStream assert[C05,C17] carg1 == store && carg2 == lbin(lnk.lid)
 //@   after GetStream let got = result0
 //@   after GetStream let goterr = result1
 //@   ensures[C05,C17] err == goterr && (goterr == nil ==> r == got)
 //@ func (*LinkSystem).SetWriteStorage$1(lctx) (w, c, err)
 //@   requires store != nil
+//@   assigns[C20] foreign
 //@   before PutStream assert[C05,C17] carg1 == store
 //@   after PutStream let got = result0
 //@   after PutStream let goterr = result2
